@@ -96,7 +96,7 @@ def one(ctx: Ctx, M, call, dtypes):
 
 def main(ctx: Ctx):
     ctx.lean_gate()
-    n = 300 if ctx.tier == "quick" else 7000
+    n = 300 if ctx.tier == "quick" else 40000
     for i in range(n):
         M = random_mtl(ctx.rng)
         call = gen_call(ctx, M)
